@@ -652,6 +652,7 @@ func main() {
 		{"trackerSrc", []string{"TrackerSrc.lean"}, genTrackerSrc},
 		{"aggLoopSrc", []string{"AggLoopSrc.lean"}, genAggLoopSrc},
 		{"mainOpts", []string{"MainOpts.lean"}, genMainOpts},
+		{"messageSrc", []string{"MessageSrc.lean"}, genMessageSrc},
 	}
 	status := map[string]interface{}{}
 	failed := 0
